@@ -9,14 +9,13 @@ Local Open Scope N_scope.
    ( * / %   + -   << >>   <=>   < <= > >=   == !=   &   ^   |   &&   || ).
    For every such expression, in C and in C++ mode, the model of prepareTernaryOpForAST + createAst's ladder,
    run on the minimally parenthesised rendering, consumes all tokens and leaves exactly the tree that the
-   ISO operator table assigns.  [decl_like] excludes the declaration-like token patterns of compileTerm
-   (skipDecl; "X ) ( name ) =") - with them the statement is false, see C07_parse_render_refuted.
+   ISO operator table assigns.  No side condition (since fix 7d6f057 skipDecl ignores expressions that
+   start with a variable; the "X ) ( name ) =" heuristic needs an '=' token).
    Missing for the full language [expr]: assignment, ?:, comma, prefix and postfix operators, calls,
    subscripts, member access (modelled and exercised by the correspondence run, not yet proved). *)
 Theorem C07_parse_render_partial :
   forall (cpp : bool) (e : expr),
-    frag1 e = true -> decl_like (render e) = false ->
-    parse cpp (render e) = Some (tree_of e).
+    frag1 e = true -> parse cpp (render e) = Some (tree_of e).
 Proof. exact parse_render_stage1. Qed.
 Print Assumptions C07_parse_render_partial.
 
@@ -24,27 +23,20 @@ Print Assumptions C07_parse_render_partial.
 Example C07_partial_premises :
   let e := canon (EBin 0 BShl (EBin 0 BAdd (EId 0 0) (EBin 0 BMul (EId 0 1) (EPar 0 (EBin 0 BSub (EId 0 2) (ENum 0 1)))))
                     (EId 0 3)) in
-  frag1 e = true /\ decl_like (render e) = false /\ wf e = true /\
+  frag1 e = true /\ wf e = true /\
   parse true (render e) = Some (tree_of e).
 Proof. vm_compute. repeat split; reflexivity. Qed.
 
-(* r = d + ( a * f ( b , c ) )   with every identifier a declared variable (f: a function pointer) *)
-Definition skipdecl_witness : expr :=
+(* r = d + ( a * f ( b , c ) )   with every identifier a declared variable (f: a function pointer).
+   Before fix 7d6f057 (skipDecl) this well-formed expression refuted the full statement; with the model
+   following the repaired code it is parsed to the grammar's tree in C and C++ mode. *)
+Definition former_skipdecl_witness : expr :=
   canon (EAsg 0 AEq (EId 0 14)
            (EBin 0 BAdd (EId 0 3)
               (EPar 0 (EBin 0 BMul (EId 0 0) (ECall 0 (EId 0 8) (EComma 0 (EId 0 1) (EId 0 2))))))).
 
-(* The faithful model of createAst does NOT give the grammar's tree on this well-formed expression:
-   compileTerm's skipDecl jumps from the name after '(' to a later variable that is followed by '(' ,
-   dropping  "a *".  Replayed on the real binary (docs/C07.md, known finding skipDecl). *)
-Theorem C07_parse_render_refuted :
-  exists e, wf e = true /\ labels_ok e = true /\
-            parse false (render e) <> Some (tree_of e) /\ parse true (render e) <> Some (tree_of e).
-Proof.
-  exists skipdecl_witness. vm_compute. repeat split; try reflexivity; intro H; discriminate H.
-Qed.
-Print Assumptions C07_parse_render_refuted.
-
-(* ... and the pattern is exactly what [decl_like] detects *)
-Example C07_witness_is_decl_like : decl_like (render skipdecl_witness) = true.
-Proof. vm_compute. reflexivity. Qed.
+Example C07_former_witness_now_parsed :
+  wf former_skipdecl_witness = true /\ labels_ok former_skipdecl_witness = true /\
+  parse false (render former_skipdecl_witness) = Some (tree_of former_skipdecl_witness) /\
+  parse true (render former_skipdecl_witness) = Some (tree_of former_skipdecl_witness).
+Proof. vm_compute. repeat split; reflexivity. Qed.
